@@ -96,7 +96,7 @@ def replay_file(path):
 def run(tier, seed):
     t0 = time.time()
     exe = core.build("rel")
-    n, mt = (1000, 400000) if tier == "quick" else (20000, 4000000)
+    n, mt = (600, 400000) if tier == "quick" else (8000, 3000000)
     ev = make_eval(exe)
     st0, f0 = core.pmap_cases(ev, fixed_cases())
     stats, fails = core.hyp_search(lambda: _enc.case_strategy(mt, boundary_weight=3), ev, n, seed)
@@ -105,7 +105,7 @@ def run(tier, seed):
     # in-process: collect() itself on alphabets of 1-3 letters, capacities 1-3000 and generated splits of the input
     # into successive buffers, against an independent greedy model (consumed count, block bytes, CRC per block)
     from props import _inproc
-    _inproc.add(stats, fails, "collect", seed, 400000 if tier == "quick" else 20000000)
+    _inproc.add(stats, fails, "collect", seed, 200000 if tier == "quick" else 6000000)
     oc = core.conclude(PID, f0 + fails, replay_case)
     core.write_evidence(PID, tier, seed, "exploration", stats, RULE, time.time() - t0,
                         violations=len(oc.violations), extra=extra,
